@@ -175,6 +175,7 @@ class State:
         self.effects = []    # ordered log of (kind, path, value) for rules that need ordering
         self.ret = None
         self.returned = False
+        self.continued = False   # a `continue` was executed: the rest of the loop body is skipped on this path
 
     def copy(self):
         s = State()
@@ -184,6 +185,7 @@ class State:
         s.cond = list(self.cond)
         s.effects = list(self.effects)
         s.ret, s.returned = self.ret, self.returned
+        s.continued = getattr(self, 'continued', False)
         s.callee_locals = getattr(self, 'callee_locals', None)
         return s
 
@@ -355,9 +357,12 @@ class Reader:
 
     # -- statements ----------------------------------------------------
     def ex(self, s, st, ctx):
-        if s is None or st.returned:
+        if s is None or st.returned or getattr(st, 'continued', False):
             return [st]
         k = s['k']
+        if k == 'Continue':
+            st.continued = True
+            return [st]
         if k == 'Compound':
             states = [st]
             for c in s['s']:
@@ -427,6 +432,7 @@ class Reader:
                             out.append(x2)
                             continue
                         for b in self.ex(s.get('b'), x2, ctx):
+                            b.continued = False
                             if b.returned or s.get('inc') is None:
                                 nxt.append(b)
                             else:
